@@ -266,7 +266,7 @@ impl Prop for C17 {
     fn rule(&self) -> String {
         "phonetic: 14 words (dictionary words, learned words, emoji names, words with inner quotes such as a'b) x every lead and trail of length <= 2 (quick) / 3 (thorough, strided pairs) over ' \" ( ) . , - : ; \
          all emoticons and a strided set of emoji names wrapped in quotes; the 20-symbol splitter alphabet to length 3; random strings with quote-heavy weighting; a learned-selection store is present; 5 option pairs (English, ANSI, suggestions off). \
-         fixed: dictionary half-words and Bengali emoji names wrapped by the same quote wrappings, typed through Probhat, 5 option pairs; every third text again with part of the word erased by backspaces (back to the opening wrapping, one character, or into the wrapping) and typed again; the phonetic random strings contain backspaces too. \
+         fixed: dictionary half-words, Bengali emoji names and the characters the layout passes through unchanged (so that the composed text equals the raw key text) wrapped by the same quote wrappings, typed through Probhat, 5 option pairs; every third text again with part of the word erased by backspaces (back to the opening wrapping, one character, or into the wrapping) and typed again; the phonetic random strings contain backspaces too. \
          Both contexts of a pair receive the same key history; lists are compared at the final text and every third prefix (phonetic) / every key (fixed). distinct_nontrivial = distinct (method, composition, options) pairs compared."
             .into()
     }
@@ -291,7 +291,9 @@ impl Prop for C17 {
                 let g = |k: &str| -> Vec<String> { c.get(k).and_then(|x| x.as_array()).map(|a| a.iter().filter_map(|s| s.as_str().map(|s| s.to_string())).collect()).unwrap_or_default() };
                 let (off, on) = (g("list_off"), g("list_on"));
                 let raw = c.get("raw_text").and_then(|r| r.as_str()).unwrap_or("");
+                // (the finding is about the phonetic method only: the same shape in fixed mode is a violation of its own)
                 v.clause == "same-list-after-uncurling"
+                    && v.sig.contains(":phonetic:")
                     && c.get("sel_off") == c.get("sel_on")
                     && on.len() == off.len() + 1
                     && on.last().map(|s| s.as_str()) == Some(raw)
@@ -402,6 +404,36 @@ impl Prop for C17 {
         for (i, n) in bn.iter().enumerate() {
             if i % env.tier.pick(12, 2) == 0 {
                 fwords.push(n.to_string());
+            }
+        }
+        // characters the layout passes through unchanged (the composed text equals the raw key text): as words of their own
+        let mut pass: Vec<char> = rev.iter().filter(|(c, k)| c.is_ascii() && **c == k.2 && !"'\"().,-:".contains(**c)).map(|(c, _)| *c).collect();
+        pass.sort();
+        out.max("fixed_pass_through_characters_used_as_words", pass.len() as u64);
+        for &c in &pass {
+            fwords.push(c.to_string());
+            fwords.push(format!("{c}{c}"));
+        }
+        // ... and under every wrapping of at most one character on each side, on both pairs that have the English option
+        {
+            let short = quote_wrappings(1);
+            let mut m = 0usize;
+            for &c in &pass {
+                for l in &short {
+                    for r in &short {
+                        m += 1;
+                        if !env.mine(m) {
+                            continue;
+                        }
+                        let text = format!("{l}{c}{r}");
+                        let Some(keys) = keys_for(&rev, &text) else { continue };
+                        for pi in [1usize, 4] {
+                            let (off, on) = &fp[pi];
+                            out.begin_case(|| json!({"method": "fixed", "text": text}));
+                            run_fixed(&o, off, on, &keys, out, &mut t);
+                        }
+                    }
+                }
             }
         }
         let fwr = quote_wrappings(2);
